@@ -503,6 +503,9 @@ def _decide(pid: str, tier: str, seed: int, reg: Any, own: list, results: dict, 
     if args.update_lock:
         os.makedirs(os.path.join(VERIF, "locks"), exist_ok=True)
         newlock = {"units": {}}
+        if args.only and os.path.exists(lock_path):  # a filtered run only refreshes the units it ran
+            with open(lock_path) as fh:
+                newlock = json.load(fh)
         for t, r in sorted(results.items()):
             newlock["units"][t] = {"sha256": r["source"].get("sha256"), "contract_sha": r.get("contract_sha"),
                                    "unsupported": len(r["unsupported"]),
